@@ -4,3 +4,9 @@
 mod c20;
 #[cfg(kani)]
 mod c15;
+#[cfg(kani)]
+mod c07;
+#[cfg(kani)]
+mod c06;
+#[cfg(kani)]
+mod c11;
